@@ -452,7 +452,7 @@ class Summaries:
             st.store[root] = v
             return RefV((root, ()))
 
-        def apply_ops(ctx, it, results):
+        def apply_ops(ctx, it, results, keep_skips=False):
             """apply adaptor chain to produced elements"""
             ops = [o for o in it.ops if o[0] in ('cloned', 'map', 'filter')]
             if not ops:
@@ -489,7 +489,7 @@ class Summaries:
                                     nxt.append((s2, x))
                     cur = nxt
                 for (s, x) in cur:
-                    if x == ('skip',):
+                    if x == ('skip',) and not keep_skips:
                         # filtered out: for positionless iteration the element is simply not produced;
                         # model as "exhausted or another element" -> drop this path (another element
                         # is covered by the produced branch, exhaustion by the None branch)
@@ -499,6 +499,27 @@ class Summaries:
 
         self.iter_elem = iter_elem
         self.to_iter = to_iter
+
+        def freeze_closure(st, clo):
+            """copy what a closure captured by reference from locals into heap places, so that it can be
+            applied after the creating frame is gone"""
+            if not isinstance(clo, ClosureV):
+                return clo
+            caps = {}
+            for k, v in clo.caps.fields.items():
+                if isinstance(v, RefV) and v.path[0][0] == 'L':
+                    val = eng.read(st, v.path)
+                    if isinstance(val, RefV) and val.path[0][0] == 'L':
+                        inner = eng.read(st, val.path)
+                        r2 = ('H', 'frz%d' % next(_c))
+                        st.store[r2] = inner
+                        val = RefV((r2, ()), val.mut)
+                    root = ('H', 'frz%d' % next(_c))
+                    st.store[root] = val
+                    caps[k] = RefV((root, ()), v.mut)
+                else:
+                    caps[k] = v
+            return ClosureV(clo.func, StructV('env', caps), clo.fp)
 
         def opt_result(ctx, results, ret_ty=None):
             ty = ret_ty or ctx.ret_ty
@@ -659,7 +680,7 @@ class Summaries:
             if isinstance(it, IterV) and it.kind == 'coll':
                 path, ckey, mode = it.args
                 c = eng.read(st, path) if path is not None else None
-                if isinstance(c, CollV) and c.known is not None and not any(o[0] in ('filter', 'skip', 'take', 'step_by') for o in it.ops):
+                if isinstance(c, CollV) and c.known is not None and not any(o[0] in ('skip', 'take', 'step_by') for o in it.ops):
                     items = c.known
                     if any(o[0] == 'rev' for o in it.ops):
                         items = tuple(reversed(items))
@@ -668,8 +689,12 @@ class Summaries:
                         nxt = []
                         for (s, acc) in states:
                             x = elem_ref(ctx, s, c, path, e, NumV(None, idx, 'usize'), mode, items_known=True)
-                            for (s2, y) in apply_ops(ctx, it, [(s, x)]):
-                                nxt.append((s2, acc + [y]))
+                            res_ = apply_ops(ctx, it, [(s, x)], keep_skips=True)
+                            for (s2, y) in res_:
+                                if y == ('skip',):
+                                    nxt.append((s2, acc))
+                                else:
+                                    nxt.append((s2, acc + [y]))
                         states = nxt
                     return [(s, CollV(kind, rty, next(_c), length=NumV(None, len(acc), 'usize'), known=tuple(acc),
                                       prov=('collect', c.prov))) for (s, acc) in states]
@@ -683,8 +708,12 @@ class Summaries:
                         ln = c.length if (not filt and c.length is not None) else eng.fresh_num(s2, 'usize', 0, 2**40)
                         if kind != 'vec':
                             ln = None
-                        out.append((s2, CollV(kind, rty, next(_c), length=ln, elem=y,
-                                              prov=('collect', c.prov, tuple(o[0] for o in it.ops)))))
+                        nc = CollV(kind, rty, next(_c), length=ln, elem=y, prov=('collect', c.prov, tuple(o[0] for o in it.ops)))
+                        fl = [o for o in it.ops if o[0] == 'filter']
+                        if kind == 'set' and len(fl) == 1 and all(o[0] in ('filter', 'cloned') for o in it.ops):
+                            # x in collect(filter(p, src))  <=>  x in src and p(x)
+                            s2.vn[('filtered', nc.cid)] = (c.key(), freeze_closure(s2, fl[0][1]))
+                        out.append((s2, nc))
                     if not out:
                         out.append((st, CollV(kind, rty, next(_c), length=NumV(None, 0, 'usize') if kind == 'vec' else None, known=())))
                     return out[:1] if len(out) == 1 else out
@@ -1510,7 +1539,16 @@ class Summaries:
             path, c = coll_at(ctx, ctx.args[0])
             src = ctx.args[1]
             log(ctx, 'map.extend', spath(path), src)
-            bump(ctx, path, c, known=None, length=None)
+            known = None
+            sv = deref1(ctx, src)
+            if c.known is not None and isinstance(sv, CollV) and sv.known is not None and all(_is_const(k) for k, _ in sv.known) \
+                    and all(_is_const(k) for k, _ in c.known):
+                kn = list(c.known)
+                for (k, v) in sv.known:
+                    kn = [kv for kv in kn if kv[0].key() != k.key()]
+                    kn.append((k, v))
+                known = tuple(kn)
+            bump(ctx, path, c, known=known, length=None)
             return UNIT
 
         @regx(r'^std::collections::(HashMap|HashSet)::<.*>::retain$|^std::vec::Vec::<T, A>::retain$')
@@ -1583,6 +1621,17 @@ class Summaries:
             log(ctx, 'set.contains', spath(path), v)
             if c.known is not None and _is_const(v) and all(_is_const(x) for x in c.known):
                 return BoolV(any(x.key() == v.key() for x in c.known))
+            fl = ctx.st.vn.get(('filtered', c.cid))
+            if fl is not None and _is_const(v):
+                srckey, pred = fl
+                outs = []
+                probe = mkref(ctx.st, mkref(ctx.st, v))
+                for (s2, r2) in eng.call_value(ctx.st.fork(), pred, [probe], ctx.depth, ctx.fr, ctx.bi):
+                    outs.append(eng.eval_bool(s2, r2) if isinstance(r2, BoolV) else None)
+                if outs and all(o is False for o in outs):
+                    return BoolV(False)
+                if outs and all(o is True for o in outs):
+                    return bool_fact(ctx, ('contains', srckey, v.key()))
             return bool_fact(ctx, ('contains', c.key(), v.key() if isinstance(v, V) else None))
 
         @regx(r'^<std::collections::HashSet<T, S, A> as std::iter::Extend<(&\'a )?T>>::extend$')
@@ -1598,7 +1647,18 @@ class Summaries:
                 else:
                     desc = ('iter', src)
             log(ctx, 'set.extend', spath(path), desc)
-            bump(ctx, path, c, known=None, length=None)
+            known = None
+            if c.known is not None and isinstance(src, IterV) and src.kind == 'coll' and not src.ops:
+                sc = eng.read(ctx.st, src.args[0]) if src.args[0] is not None else None
+                if isinstance(sc, CollV) and sc.known is not None:
+                    items = [deref(ctx, x) for x in sc.known]
+                    if all(_is_const(x) for x in items) and all(_is_const(x) for x in c.known):
+                        kn = list(c.known)
+                        for x in items:
+                            if not any(y.key() == x.key() for y in kn):
+                                kn.append(x)
+                        known = tuple(kn)
+            bump(ctx, path, c, known=known, length=None)
             return UNIT
 
         @reg('std::vec::Vec::<T, A>::push')
@@ -1760,6 +1820,13 @@ class Summaries:
         @reg('std::slice::<impl [T]>::sort')
         def _(ctx):
             path, c = coll_at(ctx, ctx.args[0])
+            log(ctx, 'vec.sort', spath(path))
+            if c.known is not None:
+                vals = [deref(ctx, x) for x in c.known]
+                if all(isinstance(v, NumV) and v.sym is None for v in vals):
+                    order = sorted(range(len(vals)), key=lambda i: vals[i].k)
+                    bump(ctx, path, c, known=tuple(c.known[i] for i in order), prov=('sorted', c.prov))
+                    return UNIT
             bump(ctx, path, c, known=None, prov=('sorted', c.prov))
             return UNIT
 
